@@ -157,6 +157,24 @@ struct Obs {
 	}
 };
 
+// C17: data held in the state objects themselves (each state and injection keeps a running digest of the callbacks
+// it received) - read through access<TState>()
+template <unsigned I> static uint64_t memOf(const cfg::Br<I>&) { return 0; }
+template <unsigned I, size_t... J>
+static uint64_t memOfSt(const cfg::St<I>& st, std::index_sequence<J...>) {
+	uint64_t h = st.mem;
+	(void) std::initializer_list<int>{(h = vh::mix(h, static_cast<const cfg::Inj<I, J + 1>&>(st).mem), 0)...};
+	return h;
+}
+template <unsigned I> static uint64_t memOf(const cfg::St<I>& st) { return memOfSt(st, std::make_index_sequence<cfg::K>{}); }
+
+static std::vector<uint64_t> stateData(const Inst& in) {
+	std::vector<uint64_t> v(N, 0);
+	const Instance& m = *in.obj;
+	for (unsigned i = 0; i < N; ++i) FOR_STATE(i, T, v[i] = memOf(m.template access<T>()));
+	return v;
+}
+
 static Obs observe(Inst& in) {
 	World& w = *W;
 	Obs o;
@@ -778,6 +796,12 @@ struct Case {
 #if HAS_SERIAL
 		if (saveBytes(a) != saveBytes(c)) w.V("C17", "copy-not-observationally-equal|serialized-form", "original and copy serialise differently");
 #endif
+		{
+			const std::vector<uint64_t> da = stateData(a), dc = stateData(c);
+			for (unsigned i = 0; i < N; ++i)
+				if (da[i] != dc[i]) { w.V("C17", "copy-not-observationally-equal|state-object-data", fmt("data member of state %u (read through access<T>()) is %llx in the original and %llx in the copy; %s", i, (unsigned long long) da[i], (unsigned long long) dc[i], w.tail().c_str())); break; }
+			w.stats.add("copy_state_data_comparisons");
+		}
 		c.prevExpected = oc.prev;   // a lost history is reported above (C17), not again as C11
 		checkObs(c, "copy construction");
 		w.flags |= F_COPY;
@@ -803,6 +827,7 @@ struct Case {
 				w.V("C17", fmt("copy-diverged-from-original|op=%s", opName(d.op)), fmt("same operation and decisions: copy ran [%s] original ran [%s]", projStr(c0, c1).c_str(), projStr(c1, c2).c_str()));
 			const Obs fa = observe(a), fc = observe(c);
 			if (!fa.same(fc)) w.V("C17", fmt("copy-diverged-from-original|state|%s", fa.firstDifference(fc)), fmt("after %s: original {%s} copy {%s}", opName(d.op), fa.str().c_str(), fc.str().c_str()));
+			if (stateData(a) != stateData(c)) w.V("C17", "copy-diverged-from-original|state-object-data", fmt("after %s on both, the state objects of original and copy hold different data", opName(d.op)));
 			w.stats.add("copy_lockstep_operations");
 			replicaFollowStep(d);
 		}
